@@ -575,6 +575,8 @@ func TestVerifC11(t *testing.T) {
 	c11NoLimiter(rep, up)
 	c11GLinet(rep, up, routes, methods)
 	c11UnusableHashes(rep, up)
+	c11SameConnection(rep, up, routes, methods)
+	c11BlockedAddress(rep, up, routes, methods)
 	c11ExpiryAfterRestart(rep, up)
 	c11Shutdown(rep, up)
 }
@@ -775,6 +777,163 @@ func c11BrokenSessionsDB(rep *verifkit.Report, up *sysUpstream, routes []string,
 			rep.Violate("unauthenticated-not-refused:session-db-unopenable", fmt.Sprintf("with an unopenable session database the server came up and %s %s without credentials answered %d", m, route, r.Status),
 				map[string]any{"route": route, "status": r.Status, "body_head": sysTail(r.Body, 200)})
 		}
+	}
+}
+
+// c11SameConnection sends, on ONE kept-alive connection, a request with right
+// credentials followed by requests without credentials, with wrong Basic
+// credentials and with an unknown cookie: each request is judged by what it
+// carries itself.
+func c11SameConnection(rep *verifkit.Report, up *sysUpstream, routes []string, methods map[string]string) {
+	in, err := sysStart("", sysConfOpts{UpstreamPort: up.Port})
+	if err != nil {
+		rep.Inconcl("same-connection phase start: " + err.Error())
+
+		return
+	}
+	defer func() {
+		in.Kill()
+		_ = os.RemoveAll(in.Dir)
+	}()
+	cookie, lerr := c11Login(in)
+	if lerr != nil {
+		rep.Inconcl("same-connection phase: " + lerr.Error())
+
+		return
+	}
+	right := map[string]map[string]string{
+		"basic":  {"Authorization": "Basic " + base64.StdEncoding.EncodeToString([]byte(sysUser+":"+sysPass))},
+		"cookie": {"Cookie": "agh_session=" + cookie},
+	}
+	wrong := map[string]map[string]string{
+		"none":           {},
+		"wrong-basic":    {"Authorization": "Basic " + base64.StdEncoding.EncodeToString([]byte(sysUser+":not-the-password"))},
+		"unknown-cookie": {"Cookie": "agh_session=" + strings.Repeat("ab", 16)},
+	}
+	n := 0
+	for _, route := range routes {
+		if c11IsPublic(route) || route == "/" || (methods[route] != "" && methods[route] != "GET") {
+			continue
+		}
+		n++
+		if n > verifkit.Pick(12, 200) {
+			break
+		}
+		for rk, rh := range right {
+			conn, derr := net.DialTimeout("tcp", fmt.Sprintf("127.0.0.1:%d", in.WebPort), 5*time.Second)
+			if derr != nil {
+				continue
+			}
+			_ = conn.SetDeadline(time.Now().Add(30 * time.Second))
+			br := bufio.NewReader(conn)
+			do := func(hdrs map[string]string) (status int, ok bool) {
+				var sb strings.Builder
+				fmt.Fprintf(&sb, "GET %s HTTP/1.1\r\nHost: 127.0.0.1:%d\r\n", route, in.WebPort)
+				for k, v := range hdrs {
+					fmt.Fprintf(&sb, "%s: %s\r\n", k, v)
+				}
+				sb.WriteString("\r\n")
+				if _, werr := conn.Write([]byte(sb.String())); werr != nil {
+					return 0, false
+				}
+				req, _ := http.NewRequest("GET", "http://x/", nil)
+				resp, rerr := http.ReadResponse(br, req)
+				if rerr != nil {
+					return 0, false
+				}
+				_, _ = io.Copy(io.Discard, resp.Body)
+				_ = resp.Body.Close()
+
+				return resp.StatusCode, !resp.Close
+			}
+			st, alive := do(rh)
+			if st != 200 || !alive {
+				_ = conn.Close()
+
+				continue
+			}
+			for wk, wh := range wrong {
+				st2, alive2 := do(wh)
+				if st2 == 0 {
+					break
+				}
+				rep.Eval(true, "same-connection|"+route+"|"+rk+"|"+wk)
+				rep.Class("requests_without_valid_credentials_on_a_connection_that_carried_an_authenticated_request")
+				if st2 != 403 && st2 != 302 && st2 != 401 {
+					rep.Violate("unauthenticated-not-refused:same-connection-as-an-authenticated-request:"+wk, fmt.Sprintf("GET %s with %s credentials answered %d on a kept-alive connection whose previous request was authenticated by %s", route, wk, st2, rk),
+						map[string]any{"route": route, "status": st2})
+					_ = conn.Close()
+
+					return
+				}
+				if !alive2 {
+					break
+				}
+			}
+			_ = conn.Close()
+		}
+	}
+	if rep.ClassCount("requests_without_valid_credentials_on_a_connection_that_carried_an_authenticated_request") < 10 {
+		rep.Inconcl("same-connection phase: too few requests shared a connection")
+	}
+}
+
+// c11BlockedAddress: after the configured number of failed logins the address
+// is blocked by the login limiter.  Requests with wrong Basic credentials from
+// that address must still be refused without running the handler: no payload,
+// no side effect.
+func c11BlockedAddress(rep *verifkit.Report, up *sysUpstream, routes []string, methods map[string]string) {
+	in, err := sysStart("", sysConfOpts{UpstreamPort: up.Port, AuthLimiter: "auth_attempts: 3\nblock_auth_min: 5\n"})
+	if err != nil {
+		rep.Inconcl("blocked-address phase start: " + err.Error())
+
+		return
+	}
+	defer func() {
+		in.Kill()
+		_ = os.RemoveAll(in.Dir)
+	}()
+	cfg0, _ := os.ReadFile(filepath.Join(in.Dir, "AdGuardHome.yaml"))
+	for k := 0; k < 4; k++ {
+		_ = c11Raw(in.WebPort, "POST", "/control/login", map[string]string{"Content-Type": "application/json"}, fmt.Sprintf(`{"name":%q,"password":"wrong-%d"}`, sysUser, k))
+	}
+	if r := c11Raw(in.WebPort, "POST", "/control/login", map[string]string{"Content-Type": "application/json"}, fmt.Sprintf(`{"name":%q,"password":%q}`, sysUser, sysPass)); r.Status != 429 {
+		rep.Inconcl(fmt.Sprintf("blocked-address phase: the address is not blocked after 4 failed logins (right password answered %d)", r.Status))
+
+		return
+	}
+	rep.Class("configurations_with_the_address_blocked_by_the_login_limiter")
+	wrongBasic := "Basic " + base64.StdEncoding.EncodeToString([]byte(sysUser+":not-the-password"))
+	for _, route := range routes {
+		if c11IsPublic(route) || route == "/" {
+			continue
+		}
+		m := methods[route]
+		if m == "" {
+			m = "GET"
+		}
+		hdrs := map[string]string{"Authorization": wrongBasic}
+		body := ""
+		if m != "GET" {
+			hdrs["Content-Type"] = "application/json"
+			body = "{}"
+			if route == "/control/filtering/set_rules" {
+				body = `{"rules":["||set-by-a-refused-request.c11.test^"]}`
+			}
+		}
+		r := c11Raw(in.WebPort, m, route, hdrs, body)
+		rep.Eval(true, "blocked-address|"+route)
+		rep.Class("requests_with_wrong_basic_credentials_from_a_blocked_address")
+		payload := r.Status == 429 && len(r.Body) > 200
+		if (r.Status != 403 && r.Status != 401 && r.Status != 302 && r.Status != 429 && r.Status != 0) || payload {
+			rep.Violate("unauthenticated-not-refused:blocked-address:wrong-basic", fmt.Sprintf("%s %s with wrong Basic credentials from an address blocked by the login limiter answered %d with %d body bytes", m, route, r.Status, len(r.Body)),
+				map[string]any{"route": route, "status": r.Status, "body_head": sysTail(r.Body, 300)})
+
+			return
+		}
+	}
+	if cfg1, _ := os.ReadFile(filepath.Join(in.Dir, "AdGuardHome.yaml")); bytes.Contains(cfg1, []byte("set-by-a-refused-request")) || (len(cfg0) > 0 && len(cfg1) == 0) {
+		rep.Violate("side-effect-of-refused-request:blocked-address", "a request with wrong Basic credentials from a blocked address changed the configuration file", nil)
 	}
 }
 
